@@ -12,6 +12,7 @@ import (
 	"encoding/json"
 	"fmt"
 	"os"
+	"strconv"
 	"sync"
 
 	"github.com/mimecast/dtail/internal/config"
@@ -77,6 +78,42 @@ func main() {
 	defer out.Flush()
 	dec := json.NewDecoder(in)
 	enc := json.NewEncoder(out)
+	par, _ := strconv.Atoi(os.Getenv("DVERIF_PAR"))
+	if par > 1 {
+		// concurrent mode: results are tagged with the case index ("_i") and flushed as they
+		// complete, so that after a crash the unfinished cases are known
+		var raws []json.RawMessage
+		for dec.More() {
+			var raw json.RawMessage
+			if err := dec.Decode(&raw); err != nil {
+				fmt.Fprintln(os.Stderr, "bad case:", err)
+				os.Exit(2)
+			}
+			raws = append(raws, raw)
+		}
+		var mu sync.Mutex
+		var wg sync.WaitGroup
+		sem := make(chan struct{}, par)
+		for i, raw := range raws {
+			wg.Add(1)
+			sem <- struct{}{}
+			go func(i int, raw json.RawMessage) {
+				defer wg.Done()
+				defer func() { <-sem }()
+				res, err := safely(h, raw)
+				if err != nil {
+					res = map[string]interface{}{"error": err.Error()}
+				}
+				mu.Lock()
+				defer mu.Unlock()
+				b, _ := json.Marshal(res)
+				fmt.Fprintf(out, "{\"_i\":%d,\"r\":%s}\n", i, b)
+				out.Flush()
+			}(i, raw)
+		}
+		wg.Wait()
+		return
+	}
 	for dec.More() {
 		var raw json.RawMessage
 		if err := dec.Decode(&raw); err != nil {
